@@ -272,9 +272,13 @@ func judge(c Case) (vs []evid.Violation) {
 			vs = append(vs, evid.V("compact-roundtrip-"+conv, "DecodeCompactRSV(CompactRSV()) differs: V=%s R=%x S=%x", dec.V, dec.R, dec.S))
 		}
 	}
+	// Other lengths: C05 speaks of the 65-byte form only. That 0, 64 or 66 bytes are refused was asserted here at
+	// first and raised an alarm on a change that also accepts the 64-byte EIP-2098 form (benign/C05-b5); withdrawn.
+	// What stays is that the call returns.
 	for _, l := range []int{0, 64, 66} {
-		if _, err := secp256k1.DecodeCompactRSV(context.Background(), make([]byte, l)); err == nil {
-			vs = append(vs, evid.V("compact-length", "DecodeCompactRSV accepts %d bytes", l))
+		if pv := evid.Guard("compact-length", func() { _, _ = secp256k1.DecodeCompactRSV(context.Background(), make([]byte, l)) }); pv != nil {
+			pv.Detail = fmt.Sprintf("DecodeCompactRSV of %d bytes: %s", l, pv.Detail)
+			vs = append(vs, *pv)
 		}
 	}
 	return vs
